@@ -125,16 +125,14 @@ impl<K: ExpiredKey<E>, E: Expiration, V: Copy> KeyExpTree<K, E, V> {
         let mut prev = index;
         let mut cursor = self.node(index).parent;
         while cursor != 0 && cursor != EMPTY_REF && cursor != index {
-            prev = cursor;
-            let parent_index = self.node(cursor).parent;
-            if parent_index == EMPTY_REF {
-                break;
-            }
-            let parent = self.node(parent_index);
-            if parent.left != cursor && parent.right != cursor {
+            // a freed slot keeps its stale parent link: every link, the first one included,
+            // has to be confirmed from the parent's side
+            let parent = self.node(cursor);
+            if parent.left != prev && parent.right != prev {
                 return false;
             }
-            cursor = parent_index;
+            prev = cursor;
+            cursor = parent.parent;
         }
         prev == self.root
     }
